@@ -27,7 +27,7 @@ Section Gen.
   Lemma expire_gen s id fact :
     fsub (st_facts s) F0 -> alookup id (st_facts s) = Some fact ->
     expire rem1 s id fact now = expire rem2 s id fact now /\
-    fsub (st_facts (fst (expire rem1 s id fact now))) (st_facts s).
+    fsub (st_facts (fst (fst (expire rem1 s id fact now)))) (st_facts s).
   Proof.
     intros Hs Hp. unfold expire. destruct (fact_expired fact now).
     - destruct (Hrec s id Hs) as (He & _ & Hf); [left; congruence|].
@@ -54,8 +54,10 @@ Section Gen.
       rewrite map_rev in Hj. apply in_rev in Hj. exact Hj.
     - destruct (alookup id (st_facts s)) as [fact|] eqn:Hp; [|apply IH; exact Hs].
       destruct (expire_gen s id fact Hs Hp) as [He Hf]. rewrite <- He.
-      destruct (expire rem1 s id fact now) as [s1 ex]. cbn [fst] in Hf.
+      destruct (expire rem1 s id fact now) as [[s1 ex] err]. cbn [fst] in Hf.
       assert (Hs1 : fsub (st_facts s1) F0) by (eapply fsub_trans; eauto).
+      destruct (expire_stops (st_kind s) err) as [e0|];
+        [repeat split; cbn [fst snd]; auto; discriminate|].
       assert (Hwrap : forall acc', (forall j, In j (map fst acc') -> In j (map fst acc) \/ alookup j F0 <> None) ->
                 search_post s acc (search_ids rem1 s1 ids pattern now acc') (search_ids rem2 s1 ids pattern now acc')).
       { intros acc' Hacc. destruct (IH s1 acc' Hs1) as (H1 & H2 & H3 & H4).
